@@ -1,0 +1,6 @@
+//go:build verif
+
+package util
+
+// Exports for the verification harness (build tag `verif` only).
+var WrapUnpackerForVerif = wrapUnpacker
